@@ -111,7 +111,7 @@ Record Inv (cfg : config) (s : state) : Prop := mkInv
     i_wg : wg s = sumz c_in (cl s) + sumz b_in (fl s);
     (* inflight counts the threshold batches removed and not yet taken over *)
     i_infl : inflight s = sumz c_send (cl s) + cmdn s +
-                          (if patched cfg then sumz b_gd (fl s) else sumz b_dec (fl s));
+                          sumz b_gd (fl s);
     (* producers waiting for a confirmation = batches on their way to a confirmation *)
     i_conf : sumz c_conf (cl s) = cmdn s + sumz b_pre (fl s);
     (* guarded <-> exactly one flusher with a (future) live loop *)
@@ -140,7 +140,7 @@ Proof.
   - intros mu (H0 & _ & _). unfold M_acc, M_done, M_cont, M_un, M_en; cbn.
     rewrite !sumz_repeat by (cbn; exact H0). rewrite H0. lia.
   - rewrite sumz_repeat; reflexivity.
-  - rewrite sumz_repeat by reflexivity. destruct (patched cfg); reflexivity.
+  - rewrite sumz_repeat by reflexivity. reflexivity.
   - rewrite sumz_repeat; reflexivity.
   - reflexivity.
   - now right.
@@ -248,12 +248,11 @@ Ltac rw_eqs :=
   repeat match goal with
   | Heq : guarded _ = _ |- _ => try rewrite Heq in *; clear Heq
   | Heq : cmd _ = _ |- _ => try rewrite Heq in *; clear Heq
-  | Heq : patched _ = _ |- _ => try rewrite Heq in *; clear Heq
   end.
 
 Ltac solve_case HI :=
   split; [constructor; [intros mu Hadd| | | | | | ] | intros mu Hadd; constructor];
-  intros; prep HI; norm; try match goal with | _ : context [patched ?c] |- _ => destruct (patched c) eqn:? | |- context [patched ?c] => destruct (patched c) eqn:? end; rw_eqs; indic; cbn [lenz length] in *; nn; try lia; try (left; reflexivity).
+  intros; prep HI; norm; rw_eqs; indic; cbn [lenz length] in *; nn; try lia; try (left; reflexivity).
 
 Ltac conf_nth :=
   try match goal with
